@@ -1705,16 +1705,25 @@ def check_C04(tier, seed):
         c.eval('(setq g 0) ' + d.replace('(if (< n 1) acc', '(if (< n 1) (progn (probe) acc)', 1).replace('(cond ((< n 1) acc)', '(cond ((< n 1) (probe) acc)', 1))
         c.eval('(f 10 0)'); c.eval('(f 10000 0)'); c.eval('(f %d 0)' % big)
         stack_cases.append((c, d))
+    j_of = {c.cid: j for j, (c, _) in enumerate(stack_cases)}
     for binary, label in ((core.TLIMPL_DEBUG, 'debug'), (core.TLIMPL_RELEASE, 'release')):
         out = core.run_side(binary, [c for c, _ in stack_cases], env={'TL_STACK_MB': '4', 'TL_STACKPROBE': '1'}, announce=True, timeout=1200)
         for c, d in stack_cases:
             ls = out.get(c.cid, [])
             depths = []
             ok = len(ls) == 4
+            ref = None
             for l in ls[1:]:
                 m = re.search(r' S (\d+)$', l)
-                kind = core.parse_line(l.rsplit(' S ', 1)[0])[1] if ' S ' in l else core.parse_line(l)[1]
-                if kind not in ('V',): ok = False
+                pl_ = core.parse_line(l.rsplit(' S ', 1)[0]) if ' S ' in l else core.parse_line(l)
+                kind = pl_[1]
+                # a generated definition may end in an error by construction (a call of an undefined function in
+                # its terminating branch): the 10-iteration call is the reference, and the long runs must end the
+                # same way (same kind, same error class) - a value for the hand-written definitions
+                sig = (kind, pl_[2] if kind == 'E' else None)
+                if ref is None: ref = sig
+                if kind not in ('V', 'E') or sig != ref: ok = False
+                if j_of[c.cid] < len(canon) and kind != 'V': ok = False
                 depths.append(int(m.group(1)) if m else None)
             res.cov['evaluations'] += len(ls)
             if not ok:
